@@ -16,11 +16,11 @@ def build_pair(ctx):
     """The harness is built twice: `tofile` (real clock: generates scripts, runs the children,
     evaluates the oracles) and `tofilechild` (-tags faketime, cgo off: the real router on the Go
     runtime's deterministic fake clock)."""
-    parent = ctx.go_test_binary("apps/nsq_to_file", ["e8/tofile_test.go"], "e8tofile", pkgname="main")
+    parent = ctx.go_test_binary("apps/nsq_to_file", ["e8/tofile_test.go", "e8/stub_nsqd.go"], "e8tofile", pkgname="main")
     old = fw.GOENV["CGO_ENABLED"]
     fw.GOENV["CGO_ENABLED"] = "0"   # the fake clock only advances when deadlock detection works (no cgo threads)
     try:
-        child = ctx.go_test_binary("apps/nsq_to_file", ["e8/tofile_test.go"], "e8tofilechild", pkgname="main",
+        child = ctx.go_test_binary("apps/nsq_to_file", ["e8/tofile_test.go", "e8/stub_nsqd.go"], "e8tofilechild", pkgname="main",
                                    tags="verif,faketime")
     finally:
         fw.GOENV["CGO_ENABLED"] = old
@@ -91,8 +91,9 @@ def run(ctx):
     ]
     ctx.assumptions += [
         "single writer: no other process renames or writes the tool's files while it runs",
-        "messages reach HandleMessage (go-nsq finishes a message whose attempts exceed max_attempts, default 5, "
-        "without calling the handler — set --consumer-opt max_attempts,0 to rule that out)",
+        "tool_fin_implies_durable_partial: the consumer library does not give up (max_attempts = 0 or attempts <= "
+        "max_attempts); with the default max_attempts=5 the full tool-level statement is refuted (open finding "
+        "gives-up-after-max-attempts); all router-level theorems are unconditional",
     ]
     ctx.rule = ("one case = one generated script (configuration: gzip, rotate-size, rotate-interval, work-dir, "
                 "skip-empty-files, max-in-flight, sync-interval, datetime format, filename format with/without <REV>; "
@@ -208,6 +209,25 @@ def run(ctx):
             ctx.corr.setdefault("syscall_leg", []).append({"label": label, "traces": nst, "fins": nfin})
             if label == "gen" and nst and nfin == 0:
                 corr_broken.append("syscall leg saw no FIN marker")
+    # known finding replay: the tool as shipped (router behind go-nsq's handlerLoop, max_attempts 5)
+    if parent and not ctx.replay_in:
+        rc, log = ctx.run_cmd([parent, "-test.run", "^TestVerifToFileGiveUp$", "-test.count=1"], timeout=120)
+        rows = [dict(kv.split("=") for kv in l.split()[1:]) for l in log.splitlines() if l.startswith("GIVEUP ")]
+        if len(rows) < 4:
+            ctx.log("give-up replay did not run:\n" + log[-800:])
+            corr_broken.append("give-up replay (TestVerifToFileGiveUp)")
+        ctx.corr["give_up"] = rows
+        for r in rows:
+            mx, att = int(r["max_attempts"]), int(r["attempts"])
+            ctx.evaluations += 1
+            model_gives_up = mx > 0 and att > mx      # Nsq.Model.ToFile.shouldFail
+            observed = (r["response"] == "FIN" and r["written_at_response"] == "false")
+            if observed != model_gives_up or r["response"] != "FIN":
+                corr_broken.append("correspondence give-up rule attempts=%d: %s" % (att, r))
+            if observed:
+                ctx.violation("gives-up-after-max-attempts",
+                              "nsq_to_file finished a message (attempts=%d, max_attempts=%d) that it never wrote" % (att, mx),
+                              "tool=nsq_to_file max_attempts=%d attempts=%d\n" % (mx, att))
     # end-to-end leg (thorough): real binaries, real nsqd, signals at random instants, strace
     if ctx.thorough() and not ctx.replay_in:
         import c19_e2e
